@@ -27,6 +27,78 @@ var universalArgSinks = map[string]struct {
 	"meta.NewReverseSuffixSetSearcher": {3, "matchStartZero: a suffix occurrence is taken for a match from the line start without a reverse scan, which is right only if EVERY element after the leading .* is a literal"},
 }
 
+// universalFieldSinks: boolean fields that make a scan skip start positions after EVERY failed attempt; the stored
+// value must be computed from a predicate that quantifies over every later element of the sequence.
+var universalFieldSinks = map[string]string{
+	"nfa.CompositeSequenceDFA.skipSafe": "skipSafe: after a failed attempt the scan resumes where the automaton died, which is right only if NO later part of the sequence shares a byte with the first one ([a-z]+[0-9]+[a-z]+[A-Z]+ has a match starting inside a failed attempt)",
+}
+
+// universalSlicePredicates finds bool functions that quantify universally over a slice parameter: a loop
+// `for ... := range s` or `range s[k:]` over the parameter whose body (at any depth) returns false, with
+// `return true` as the function's last statement.
+func universalSlicePredicates(p *core.Prog) map[*types.Func]bool {
+	out := map[*types.Func]bool{}
+	for _, pk := range p.Pkgs {
+		for _, f := range pk.Syntax {
+			if strings.HasSuffix(p.Fset.Position(f.Pos()).Filename, "_test.go") {
+				continue
+			}
+			for _, d := range f.Decls {
+				fd, ok := d.(*ast.FuncDecl)
+				if !ok || fd.Body == nil || len(fd.Body.List) == 0 {
+					continue
+				}
+				obj, _ := pk.TypesInfo.Defs[fd.Name].(*types.Func)
+				if obj == nil {
+					continue
+				}
+				sig := obj.Type().(*types.Signature)
+				if sig.Results().Len() != 1 {
+					continue
+				}
+				if b, ok := sig.Results().At(0).Type().Underlying().(*types.Basic); !ok || b.Kind() != types.Bool {
+					continue
+				}
+				last, ok := fd.Body.List[len(fd.Body.List)-1].(*ast.ReturnStmt)
+				if !ok || len(last.Results) != 1 || !isIdentNamed(last.Results[0], "true") {
+					continue
+				}
+				sliceParams := map[types.Object]bool{}
+				for i := 0; i < sig.Params().Len(); i++ {
+					if _, isSl := sig.Params().At(i).Type().Underlying().(*types.Slice); isSl {
+						sliceParams[sig.Params().At(i)] = true
+					}
+				}
+				for _, st := range fd.Body.List {
+					rs, ok := st.(*ast.RangeStmt)
+					if !ok {
+						continue
+					}
+					rx := rs.X
+					if sl, ok := rx.(*ast.SliceExpr); ok && sl.High == nil {
+						rx = sl.X // every element after a fixed head
+					}
+					id, ok := rx.(*ast.Ident)
+					if !ok || !sliceParams[pk.TypesInfo.Uses[id]] {
+						continue
+					}
+					returnsFalse := false
+					ast.Inspect(rs.Body, func(n ast.Node) bool {
+						if r, ok := n.(*ast.ReturnStmt); ok && len(r.Results) == 1 && isIdentNamed(r.Results[0], "false") {
+							returnsFalse = true
+						}
+						return true
+					})
+					if returnsFalse {
+						out[obj] = true
+					}
+				}
+			}
+		}
+	}
+	return out
+}
+
 // universalPredicates finds bool functions over *syntax.Regexp that quantify universally over the children of a node:
 // a loop `for _, sub := range x.Sub { if !f(sub) { return false } }` with f the function itself.
 func universalPredicates(p *core.Prog) map[*types.Func]bool {
@@ -112,8 +184,8 @@ func universalPredicates(p *core.Prog) map[*types.Func]bool {
 func init() {
 	core.Register(&core.Rule{
 		Name: "R-UNIVGUARD",
-		Doc: "A rewrite that checks a condition for every candidate needs a universal guard: every call of prefilter.WrapLineAnchor (the wrapper rejects each literal candidate that is not at a line start) must be dominated by the true edge of a predicate over the pattern that quantifies over ALL alternatives (a bool function over *syntax.Regexp with `for _, sub := range re.Sub { if !f(sub) { return false } }`). An existential detector ('the pattern contains (?m)^ somewhere') is not enough: for (?m)^foo|bar the branch bar matches anywhere, and the wrapper silently drops those matches. The same holds for a boolean argument that makes a searcher skip a verification for every candidate (the matchStartZero flag of the reverse suffix set searcher: .*[a-z]+\\.(txt|log) must not be told that a suffix occurrence is a match): the argument is computed from a universal predicate. Necessary for C16 (complete prefilters report exactly the matches) and C01/C02.",
-		Min: 2, NeedSSA: true,
+		Doc: "A rewrite that checks a condition for every candidate needs a universal guard: every call of prefilter.WrapLineAnchor (the wrapper rejects each literal candidate that is not at a line start) must be dominated by the true edge of a predicate over the pattern that quantifies over ALL alternatives (a bool function over *syntax.Regexp with `for _, sub := range re.Sub { if !f(sub) { return false } }`). An existential detector ('the pattern contains (?m)^ somewhere') is not enough: for (?m)^foo|bar the branch bar matches anywhere, and the wrapper silently drops those matches. The same holds for a boolean argument that makes a searcher skip a verification for every candidate (the matchStartZero flag of the reverse suffix set searcher: .*[a-z]+\\.(txt|log) must not be told that a suffix occurrence is a match): the argument is computed from a universal predicate. And for a boolean field that lets a scan skip start positions after every failed attempt (skipSafe of the composite sequence DFA): the stored value comes from a bool function that ranges over its whole slice parameter (or a tail s[k:]) and returns false on a counter-example; testing only the neighbouring part is the existential mistake in another form ([a-z]+[0-9]+[a-z]+[A-Z]+ on 'ab1cd2efX': no match found). Necessary for C16 (complete prefilters report exactly the matches) and C01/C02.",
+		Min: 3, NeedSSA: true,
 		Run: func(p *core.Prog) *core.RuleResult {
 			res := &core.RuleResult{}
 			univ := universalPredicates(p)
@@ -124,12 +196,75 @@ func init() {
 			sort.Strings(names)
 			res.Notes = append(res.Notes, "universal predicates over the syntax tree: "+strings.Join(names, ", "))
 			kc := core.NewKeyCounter()
+			univSlice := universalSlicePredicates(p)
 			for _, fn := range p.SrcFuncs() {
 				if strings.HasSuffix(p.File(fn.Pos()), "_test.go") {
 					continue
 				}
 				for _, b := range fn.Blocks {
 					for _, in := range b.Instrs {
+						if st, ok := in.(*ssa.Store); ok {
+							fa, ok := st.Addr.(*ssa.FieldAddr)
+							if !ok {
+								continue
+							}
+							f := innerField(fa)
+							pt, _ := fa.X.Type().Underlying().(*types.Pointer)
+							if f == nil || pt == nil {
+								continue
+							}
+							nm, _ := pt.Elem().(*types.Named)
+							if nm == nil || nm.Obj().Pkg() == nil {
+								continue
+							}
+							why := universalFieldSinks[nm.Obj().Pkg().Name()+"."+nm.Obj().Name()+"."+f.Name()]
+							if why == "" {
+								continue
+							}
+							if k, isC := st.Val.(*ssa.Const); isC && k.Value != nil && k.Value.String() == "false" {
+								continue // switching the shortcut off needs no justification
+							}
+							o := core.Obligation{Key: kc.Key("R-UNIVGUARD", core.FuncName(fn), "field "+f.Name()+" computed from a universal predicate"), Pos: p.Pos(st.Pos()), Nontrivial: true}
+							found := ""
+							var walkV func(v ssa.Value, d int)
+							walkV = func(v ssa.Value, d int) {
+								if v == nil || d > 6 || found != "" {
+									return
+								}
+								switch x := v.(type) {
+								case *ssa.Call:
+									if g := x.Call.StaticCallee(); g != nil {
+										if obj, _ := g.Object().(*types.Func); obj != nil && univSlice[obj] {
+											found = g.Name()
+										}
+									}
+								case *ssa.BinOp:
+									walkV(x.X, d+1)
+									walkV(x.Y, d+1)
+								case *ssa.Phi:
+									for _, e := range x.Edges {
+										walkV(e, d+1)
+									}
+									for _, pred := range x.Block().Preds {
+										if len(pred.Instrs) > 0 {
+											if iff, ok := pred.Instrs[len(pred.Instrs)-1].(*ssa.If); ok {
+												walkV(iff.Cond, d+1)
+											}
+										}
+									}
+								}
+							}
+							walkV(st.Val, 0)
+							if found != "" {
+								o.Status = core.Discharged
+								o.Detail = "the stored value includes the predicate " + found + ", which ranges over every element of its slice argument and fails on the first counter-example"
+							} else {
+								o.Status = core.Violated
+								o.Detail = "the stored value is not computed from a predicate that ranges over every later element (" + why + ")"
+							}
+							res.Obligations = append(res.Obligations, o)
+							continue
+						}
 						c, ok := in.(*ssa.Call)
 						if !ok {
 							continue
